@@ -39,17 +39,86 @@ def leaf_terms(e):
         yield e
 
 
+CONTENT_FALLIBLE = ("::read_line", "::read_to_string", "String::from_utf8", "str::from_utf8", "::from_utf8")
+PANICKING_TAKES = ("Result::<T, E>::unwrap", "Result::<T, E>::expect", "Option::<T>::unwrap", "Option::<T>::expect")
+
+
+def line_reads(b, ex):
+    """The calls that read one line from the GUI: `read_line(&mut String)`, or `read_until(b'\\n', &mut Vec<u8>)`
+    (the same framing on bytes).  Returns [(bb, term, kind, delimiter_ok)]."""
+    out = []
+    for bb, t in b.iter_calls():
+        c = callee_of(t) or ""
+        if c.endswith("::read_line"):
+            out.append((bb, t, "read_line", True))
+        elif c.endswith("::read_until"):
+            a = ex.call_args(bb)
+            out.append((bb, t, "read_until", len(a) >= 2 and strip_refs(a[1]) == ("const", 10)))
+    return out
+
+
 def r17_3(ctx):
     f = ctx.facts
     b = f.body(READ)
     ctx.note_fn(READ)
     ex = Exprs(b)
-    rl = [(bb, t) for bb, t in b.iter_calls() if (callee_of(t) or "").endswith("::read_line")]
+    lr = line_reads(b, ex)
+    rl = [(bb, t) for bb, t, _k, _d in lr]
     if not rl:
-        raise AnchorMissing("no read_line call in %s" % READ)
+        raise AnchorMissing("no line read (read_line / read_until) in %s" % READ)
     ctx.floor("read_line calls", len(rl), 1)
+    for bb, t, kind, dok in lr:
+        if kind == "read_until":
+            ctx.ob("read_from_gui:line-delimiter", dok, b.where(b.term_loc(bb)), "read_until splits the input at the newline byte")
+    # no line can kill the engine by its content: a step that fails on *what the bytes are* (decoding to
+    # UTF-8: read_line, read_to_string, from_utf8) must not have its failure taken by unwrap/expect - a
+    # garbage line is to be ignored, not to end the process
+    nf = 0
+    for bb2, t2 in b.iter_calls():
+        c2 = callee_of(t2) or ""
+        if not any(c2.endswith(x) for x in PANICKING_TAKES):
+            continue
+        a2 = ex.call_args(bb2)
+        if not a2:
+            continue
+        src = [x for x in data_slice(ex, a2[0]) if x[0] == "call" and any(x[1].endswith(y) or y in x[1] for y in CONTENT_FALLIBLE) and "lossy" not in x[1]]
+        if src:
+            nf += 1
+            ctx.ob("read_from_gui:content-cannot-panic#%d" % nf, False, b.where(b.term_loc(bb2)),
+                   "`%s` takes the result of `%s`, which fails when the line is not valid UTF-8: such a garbage line terminates the engine instead of being ignored" % (
+                       b.text_at(b.term_loc(bb2))[:60], src[0][1].split("::")[-1]))
+    if nf == 0:
+        ctx.ob("read_from_gui:content-cannot-panic", True, b.file, "no unwrap/expect in read_from_gui takes the result of a decoding step (read_line, from_utf8, ..): %d found" % nf, nontrivial=False)
     for bb, t in rl:
         call = ex.call_expr(t, b.term_loc(bb))
+        # a failed read is not a command: the Err outcome must end the process (as `unwrap` does), not hand
+        # an empty line back to the command loop - a read that fails once (terminal gone, EIO) fails on every
+        # further call, so the loop would spin forever instead of ending
+        bad = None
+        for s in b.normal:
+            if s not in b.reachable or b.term(s)["k"] != "switch":
+                continue
+            d = ex.switch_discr(s)
+            if not (d[0] == "discr" and strip_refs(d[1]) == call):
+                continue
+            tt = b.term(s)
+            errs = [tg for val, tg in tt["cases"] if val == 1]
+            if not errs and b.blocks[tt["otherwise"]]["term"]["k"] != "unreachable":
+                errs = [tt["otherwise"]]
+            for tg in errs:
+                if not exits_process(b, tg) and any(b.term(x)["k"] == "return" for x in b.reach_from(tg)):
+                    bad = (s, tg)
+        for bb2, t2 in b.iter_calls():
+            c2 = callee_of(t2) or ""
+            if c2.endswith("Result::<T, E>::unwrap_or") or c2.endswith("Result::<T, E>::unwrap_or_default") or c2.endswith("Result::<T, E>::unwrap_or_else"):
+                a2 = ex.call_args(bb2)
+                if a2 and strip_refs(a2[0]) == call:
+                    dflt = strip_refs(a2[1]) if len(a2) > 1 else ("const", 0)
+                    if c2.endswith("unwrap_or_else") or not (dflt[0] == "const" and dflt[1] == 0):
+                        bad = (bb2, bb2)
+        ctx.ob("read_from_gui:read-error-ends", bad is None, b.where(b.term_loc(bad[0])) if bad else b.where(b.term_loc(bb)),
+               "a failed read_line %s" % ("is handed back to the command loop as if it were a line: a persistent read error (terminal gone) makes the loop spin forever instead of ending the process" if bad else
+                                          "never comes back as a line (it ends the process or counts as end of input)"))
         key = "read_from_gui:read_line-count"
         found = None
         for s in b.normal:
